@@ -302,18 +302,28 @@ def fstring_sources(ctx, n):
         for _ in range(rng.randint(1, 4)):
             k = rng.random()
             lit = ''.join(rng.choice(chars) for _ in range(rng.randint(0, 5)))
-            if k < 0.5:
+            if k < 0.4:
                 parts.append(ast.Constant(value=lit))
-            elif k < 0.8:
+            elif k < 0.65:
                 parts.append(ast.FormattedValue(value=ast.Constant(value=lit), conversion=-1, format_spec=None))
-            elif k < 0.9:
+            elif k < 0.72:
                 try:
                     parts.append(ast.FormattedValue(value=ast.Constant(value=lit.encode('latin-1', 'replace')), conversion=-1, format_spec=None))
                 except Exception:
                     pass
-            else:
+            elif k < 0.8:
                 parts.append(ast.FormattedValue(value=ast.Name(id='a', ctx=ast.Load()), conversion=rng.choice([-1, 114]),
                                                 format_spec=ast.JoinedStr(values=[ast.Constant(value=lit.replace('\\', '').replace('\n', ''))])))
+            elif k < 0.9:
+                # a format spec whose literal text contains backslashes, control characters, NUL
+                spec = ''.join(rng.choice(['\\', 'n', 't', '\n', '\t', '\0', '>', '5', 'x', "'", '"', 'é', '\r', '{{', '}}']) for _ in range(rng.randint(1, 4)))
+                parts.append(ast.FormattedValue(value=ast.Name(id='a', ctx=ast.Load()), conversion=-1,
+                                                format_spec=ast.JoinedStr(values=[ast.Constant(value=spec)])))
+            else:
+                # a nested f-string (and nested plain strings with surrogates) inside a replacement field
+                inner_lit = ''.join(rng.choice(ALPHABET + ['\\b', '\\', 'b']) for _ in range(rng.randint(1, 4)))
+                inner = ast.JoinedStr(values=[ast.Constant(value=inner_lit), ast.FormattedValue(value=ast.Name(id='a', ctx=ast.Load()), conversion=-1, format_spec=None)])
+                parts.append(ast.FormattedValue(value=rng.choice([inner, ast.Constant(value=inner_lit)]), conversion=-1, format_spec=None))
         tree = ast.Module(body=[ast.Assign(targets=[ast.Name(id='x', ctx=ast.Store())], value=ast.JoinedStr(values=parts), lineno=1)], type_ignores=[])
         try:
             ast.fix_missing_locations(tree)
